@@ -1163,3 +1163,8 @@ mod tests {
         );
     }
 }
+
+// verification hook (guard: cfg(kani)); contract harnesses live outside the repository
+#[cfg(kani)]
+#[path = "/verif/kani/statime_algo/estimator.rs"]
+mod verif;
